@@ -4,13 +4,13 @@ package main
 // evaluated to SMT terms in a given symbolic state.
 
 import (
-	"regexp"
 	"fmt"
 	"go/ast"
 	"go/constant"
 	"go/token"
 	"go/types"
 	"os"
+	"regexp"
 	"strconv"
 	"strings"
 
@@ -19,15 +19,15 @@ import (
 
 type SpecEnv struct {
 	inIfaceFacts bool // evaluating the assumed contract of an interface method application
-	fc       *fnCtx
-	st       *State
-	old      *State
-	vars     map[string]Val
-	oldVars  map[string]Val
-	bound    map[string]Val
-	pkg      *ssa.Package
-	lets     map[string]ast.Expr
-	letCache *map[string]Val
+	fc           *fnCtx
+	st           *State
+	old          *State
+	vars         map[string]Val
+	oldVars      map[string]Val
+	bound        map[string]Val
+	pkg          *ssa.Package
+	lets         map[string]ast.Expr
+	letCache     *map[string]Val
 	// ghost resolves names of callee locals used in ensures clauses (final values in the
 	// callee, fresh existential witnesses at call sites)
 	ghost func(name string) (Val, bool)
@@ -1073,6 +1073,23 @@ func (e *SpecEnv) evalCall(n *ast.CallExpr) (Val, error) {
 			fname := "sum." + srt
 			e.fc.S().UFun(fname, []string{hs, "Slice", "Int", "Int"}, srt)
 			return Val{T: app(fname, h, sv.T, lo.T, hi.T), Ty: st.Elem()}, nil
+		case "first", "second":
+			// first(f(...)) / second(f(...)): a component of a call with several results
+			if len(n.Args) != 1 {
+				return Val{}, fmt.Errorf("%s(call)", id.Name)
+			}
+			v, err := e.eval(n.Args[0])
+			if err != nil {
+				return Val{}, err
+			}
+			k := 0
+			if id.Name == "second" {
+				k = 1
+			}
+			if len(v.Tup) <= k {
+				return Val{}, fmt.Errorf("%s: not a call with several results", id.Name)
+			}
+			return v.Tup[k], nil
 		case "haskey":
 			// haskey(m, k): k is a key of map m
 			if len(n.Args) != 2 {
@@ -1527,8 +1544,8 @@ func (e *SpecEnv) ifaceCall(sel *ast.SelectorExpr, argx []ast.Expr) (Val, bool, 
 		return Val{}, true, fmt.Errorf("interface method %s.%s has no pure contract", typeKey(recv.Ty), m.Name())
 	}
 	sig := m.Type().(*types.Signature)
-	if sig.Results().Len() != 1 {
-		return Val{}, true, fmt.Errorf("interface method %s must have one result", m.Name())
+	if sig.Results().Len() == 0 {
+		return Val{}, true, fmt.Errorf("interface method %s has no result", m.Name())
 	}
 	var args []Val
 	for i, a := range argx {
@@ -1537,6 +1554,14 @@ func (e *SpecEnv) ifaceCall(sel *ast.SelectorExpr, argx []ast.Expr) (Val, bool, 
 			return Val{}, true, err
 		}
 		args = append(args, e.coerce(v, sig.Params().At(i).Type()))
+	}
+	if sig.Results().Len() > 1 {
+		// a tuple: pick a component with first(...) / second(...)
+		var tup []Val
+		for i := 0; i < sig.Results().Len(); i++ {
+			tup = append(tup, e.fc.ifaceApp(recv, fmt.Sprintf("%s.r%d", m.Name(), i), args, sig.Results().At(i).Type()))
+		}
+		return Val{Tup: tup, Ty: sig.Results()}, true, nil
 	}
 	app := e.fc.ifaceApp(recv, m.Name(), args, sig.Results().At(0).Type())
 	// the assumed contract of the method also holds of this application (closed terms only:
